@@ -456,6 +456,8 @@ def _s2s_build(pair):
     def fresh():
         if pair == "body-body":
             s, b1, b2, c = B.make_s2s("A")
+        elif pair == "body-body-xz":
+            s, b1, b2, c = B.make_s2s("Z")
         else:
             s, b1, b2, c = _make_s2s_frame()
         return World("Sphere2Sphere", c, system=s, extra={"pair": pair})
@@ -493,7 +495,7 @@ def _make_s2s_frame():
 
 def _s2s_q(w, qn):
     q = B.s2s_q(qn[0], negzero=qn.endswith("_nz"))
-    return q if w.extra["pair"] == "body-body" else q[7:]
+    return q if w.extra["pair"].startswith("body-body") else q[7:]
 
 
 def _s2s_eval(method, tn, qn):
@@ -518,24 +520,25 @@ def _s2s_eval(method, tn, qn):
 
 def _s2s_letters(pair, group, tier):
     L = []
-    combos = [("t0", "A"), ("t1", "A"), ("t0", "B"), ("t0", "A_nz")]
+    nA, nB, nC = ("Y", "X", "Z") if pair == "body-body-xz" else ("A", "B", "C")
+    combos = [("t0", nA), ("t1", nA), ("t0", nB), ("t0", nA + "_nz")]
     if tier != "quick":
-        combos.append(("t0", "C"))
+        combos.append(("t0", nC))
     for m in S2S_GROUPS[group]:
         cs = combos if m in S2S_MEMO else (combos[:3] if tier != "quick" else [combos[0], combos[2]])
         for tn, qn in cs:
             L.append(Letter(f"{m}({tn},{qn})", "eval", _s2s_eval(m, tn, qn), method=m, argkey=f"{tn},{qn}"))
-    for qn in (("A", "B") if tier == "quick" else ("A", "B", "C")):
+    for qn in ((nA, nB) if tier == "quick" else (nA, nB, nC)) + ((nC,) if pair == "body-body-xz" and tier == "quick" else ()):
         def fn(w, qn=qn):
             w.obj.step_callback(0.0, _s2s_q(w, qn), None)
         L.append(Letter(f"stepcb({qn})", "op", fn))
-    for qn in (("C",) if tier == "quick" else ("A", "C")):
+    for qn in ((nC,) if tier == "quick" else (nA, nC)):
         def fn(w, qn=qn):
             from cardillo.solver import SolverOptions
 
             s = w.system
             q0 = B.s2s_q(qn)
-            q0 = q0 if w.extra["pair"] == "body-body" else q0[7:]
+            q0 = q0 if w.extra["pair"].startswith("body-body") else q0[7:]
             s.set_new_initial_state(q0, np.zeros(s.nu), options=SolverOptions(compute_consistent_initial_conditions=False))
         L.append(Letter(f"reassemble(q0={qn})", "op", fn))
 
@@ -750,9 +753,11 @@ def cases(tier, seed):
             # ... evictions and re-queries: small alphabet (6 distinct keys > maxsize) to the fixpoint
             out.append({"family": "Mesh1D", "degree": degree, "basis": basis, "alphabet": "small",
                         "depth": 99 if (degree == 1 or not quick) else 5})
-    for pair in ("body-body", "frame-body"):
+    for pair in ("body-body", "frame-body", "body-body-xz"):
         for g in S2S_GROUPS:
             if pair == "frame-body" and g == "friction" and quick:
+                continue
+            if pair == "body-body-xz" and g != "tangent":
                 continue
             c = {"family": "Sphere2Sphere", "pair": pair, "group": g, "depth": 3 if (quick or g != "tangent" or pair != "body-body") else 4, "tier": tier}
             n = len(_s2s_letters(pair, g, tier))
